@@ -394,6 +394,11 @@ func ruleCycleErr(rule string) RuleFn {
 				}
 			}
 			found := an.BoolEdges(fn, func(v ssa.Value) bool { return taOK(v, "errCycleDetected") }, true)
+			// ... or the same walk having found one in a branch of a joined error (a recursive call)
+			found = append(found, an.BoolEdges(fn, func(v ssa.Value) bool {
+				k, ok := v.(*ssa.Call)
+				return ok && an.StaticCallee(k) == fn
+			}, true)...)
 			nTrue := 0
 			an.Instrs(fn, func(in ssa.Instruction) {
 				r, isR := in.(*ssa.Return)
@@ -415,6 +420,26 @@ func ruleCycleErr(rule string) RuleFn {
 					good, why = false, "IsCycleDetected: "+w+" (whatever a constructor returned is not a cycle rejection of this container)"
 				}
 			}
+			// every branch of a joined error is searched: the walk knows `Unwrap() []error`, and it does not commit
+			// itself to the FIRST dig.Error errors.As happens to find
+			joined := false
+			an.Instrs(fn, func(in ssa.Instruction) {
+				if ta, ok := in.(*ssa.TypeAssert); ok {
+					if it, ok := ta.AssertedType.Underlying().(*types.Interface); ok {
+						for i := 0; i < it.NumMethods(); i++ {
+							if m := it.Method(i); m.Name() == "Unwrap" {
+								if sig, ok := m.Type().(*types.Signature); ok && sig.Results().Len() == 1 {
+									if _, isSlice := sig.Results().At(0).Type().Underlying().(*types.Slice); isSlice {
+										joined = true
+									}
+								}
+							}
+						}
+					}
+				}
+			})
+			firstOnly := len(an.CallsNamed(fn, "errors.As")) > 0
+			c.Check(joined && !firstOnly, rule, "IsCycleDetected searches every branch of a wrapped or joined error", "Unwrap() []error handled, no errors.As pre-selection", "IsCycleDetected follows one chain only (the first dig.Error errors.As finds, or no joined errors at all): for errors.Join(other, cycleErr) or fmt.Errorf(\"%w; %w\", ...) the answer depends on the order of the operands", nil, nil)
 			c.Check(good, rule, "IsCycleDetected follows dig's own links only and is true exactly for an errCycleDetected link", "outermost dig.Error, then link by link, stop at errConstructorFailed", why, nil, nil)
 		}
 	}
